@@ -452,6 +452,7 @@ func runC10(c *core.Ctx) {
 		}
 		k := NewWalker(w, gen.NameOpts{MaxDepth: 1, N: 3}, wts)
 		k.Hostile = 6
+		k.settle = false // C10's names stay inside the alphabet of its statement
 		k.BranchNames = []string{"main", "a", "ab", "b", "a.b", "a-b", "z", "m", "ma", "main2", "A", "0", "x_y", "v1.0", "zz-top", "Main", ".hotfix", ".a", "_", "a.", "..b", "1", "-x-"[1:], ".", "..", "main.lock", "a.lock", "m_", "MAIN", "mAin", "A.B", "a.tmp", "main.tmp", "a.new", "a.bak", "tmp-a"}
 		if w.Hist%5 == 2 {
 			// long names, some of them prefixes of each other: HEAD is then longer than 128 / 256 bytes
@@ -676,6 +677,58 @@ func runC14(c *core.Ctx) {
 			}
 			k.goit(args...)
 		}
+		if c.GoitVFS != "" && (w.Hist == 5 || (c.Thorough() && w.Hist%800 == 5)) {
+			// two commits of one chain whose ids share their first seven hex digits (what listings show): with a pinned clock the
+			// id of the next commit can be computed beforehand, and a message is searched that makes it collide with an ancestor
+			oldBin := w.GoitBin
+			w.GoitBin = c.GoitVFS
+			w.Env = map[string]string{"VERIF_NOW": "1700000000"}
+			k.LongHistory(60)
+			w.Write("twin.txt", []byte("abbreviated ids\n"))
+			k.goit("add", "twin.txt")
+			wt := k.goit("write-tree")
+			r := w.State().Repo()
+			tree, parent := strings.TrimSpace(wt.Stdout), r.HeadCommit()
+			pre := map[string]bool{}
+			for id := parent; id != ""; {
+				cm, err := r.Commit(id)
+				if err != nil {
+					break
+				}
+				pre[id[:7]] = true
+				if len(cm.Parents) == 0 {
+					break
+				}
+				id = cm.Parents[0]
+			}
+			name, email, _, _ := effectiveIdentity(r)
+			sig := fmt.Sprintf("%s <%s> 1700000000 +0000", name, email)
+			found := ""
+			if gitfmt.IsHex40(tree) && parent != "" {
+				for n := 0; n < 30_000_000; n++ {
+					msg := fmt.Sprintf("release notes, build %d", n)
+					id := gitfmt.ObjectID("commit", []byte(fmt.Sprintf("tree %s\nparent %s\nauthor %s\ncommitter %s\n\n%s\n", tree, parent, sig, sig, msg)))
+					if pre[id[:7]] {
+						found = msg
+						st := k.goit("commit", "-m", msg)
+						if st.Exit == 0 && w.State().Repo().HeadCommit() == id {
+							c.Count("C14.abbreviated-id-twins-in-one-chain")
+						} else {
+							c.Count("C14.abbreviated-id-prediction-missed")
+						}
+						break
+					}
+				}
+			}
+			if found != "" {
+				for _, kv := range []int{1, 2, 30, 60, 61, 62, 63, 100} {
+					k.goit("log", "-n", fmt.Sprint(kv))
+				}
+				k.goit("log")
+			}
+			w.GoitBin = oldBin
+			w.Env = nil
+		}
 		clockSteps := c.GoitVFS != "" && w.Hist%6 == 4
 		if clockSteps {
 			// the clock of the machine is not monotone (a step back after a time correction, another machine): commits are
@@ -895,7 +948,7 @@ var c20Emails = []string{"a@example.com", "first.last@sub.example.org", "x_y+tag
 
 // c20Long: a printable value of 4..10 KiB with single inner blanks, '=' and non-ASCII in its tail.
 func c20Long(r *rand.Rand) string {
-	n := []int{4070, 4085, 4096, 4200, 8192, 10000}[r.IntN(6)]
+	n := []int{4070, 4085, 4096, 4200, 8192, 10000, 70000, 70000}[r.IntN(8)]
 	var b strings.Builder
 	for b.Len() < n {
 		b.WriteString([]string{"abcdefghij", "Zz", "x=y", "é", "w w", "0123456789"}[r.IntN(6)])
@@ -964,6 +1017,20 @@ func runC20(c *core.Ctx) {
 				if plan&(1<<bit) == 0 {
 					continue
 				}
+			}
+			if r.IntN(12) == 0 {
+				// the flag with an explicit value, in either position: "=false" is a local write
+				form := []string{"--global=true", "--global=1", "--global=false", "--global=0", "--global=f"}[r.IntN(5)]
+				global = form == "--global=true" || form == "--global=1"
+				if sec == "user" && (key == "name" || key == "email") {
+					continue // the identity plan above was made for the other scope
+				}
+				if r.IntN(2) == 0 {
+					w.Goit("config", form, sec+"."+key, val)
+				} else {
+					w.Goit("config", sec+"."+key, val, form)
+				}
+				continue
 			}
 			if global {
 				w.Goit("config", "--global", sec+"."+key, val)
